@@ -340,8 +340,8 @@ fn child_dropped(id: Cid, addr: usize) {
             if role == Role::Fut && x.adapter {
                 x.inflight -= 1;
             }
-            if x.subject_alive && !x.subject_dropping {
-                let pr = x.discard_props();
+            let pr = x.discard_props();
+            if x.subject_alive && !x.subject_dropping && pr != 0 {
                 x.violate(
                     pr,
                     "Cxx/held-child-discarded",
@@ -362,10 +362,19 @@ fn child_dropped(id: Cid, addr: usize) {
 impl World {
     /// which properties a "held child silently discarded" event violates, by subject class
     pub fn discard_props(&self) -> u32 {
-        if self.adapter {
-            p(10) | p(6)
-        } else {
-            p(2) | p(11)
+        match self.class {
+            0 => p(2),
+            1 => p(11),
+            2 => p(10) | p(6),
+            3 => p(7),
+            // try_join_all documents that the other futures are cancelled once one has failed
+            _ => {
+                if self.first_err.is_some() {
+                    0
+                } else {
+                    p(7)
+                }
+            }
         }
     }
 }
